@@ -91,5 +91,12 @@ pub fn file_dict_name(url: &Url) -> anyhow::Result<PathBuf> {
         }
     }
 
+    // A URL whose path is just the root (`file:///`) names no file. An empty name would make
+    // `file_dict_path.join(name)` the dictionary directory itself, and `save_dict` would then put
+    // its temporary file next to that directory.
+    if rewritten.is_empty() {
+        return Err(anyhow!("The URL does not name a file."));
+    }
+
     Ok(rewritten.into())
 }
